@@ -52,7 +52,7 @@ func main() {
 
 	// 2. generate and replay
 	total := chain.RunStats{Tags: map[string]int{}}
-	for _, name := range []string{"v1only", "mixed", "v2only", "foundation"} {
+	for _, name := range []string{"v1only", "mixed", "v2only", "foundation", "foundation2"} {
 		cfg := chain.BaseConfig(chain.Shapes()[name])
 		cfg.Defects = []string{"unbalanced", "zero", "formation", "payout", "wrap"}
 		cfg.MaxReverts = 1
